@@ -249,15 +249,16 @@ def knuth_cases(c):
 def g_knuth(c, kind):
     calls = []
     cases = knuth_cases(c)
-    for mode in MODES:
+    modes = MODES if c.tier != 'quick' else ['RoundFloor', 'RoundCeiling', 'RoundHalfEven', 'Round05Up']
+    for mode in modes:
         calls.append({'ev': 'set', 't': 1, 'mode': mode})
         for i, cs in enumerate(cases):
             sx, sy = [(1, 1), (-1, 1), (1, -1), (-1, -1)][i % 4]
             if kind == 'wide':
-                first = mode == MODES[0]          # the floor primitives do not depend on the mode
+                first = mode == modes[0]          # the floor primitives do not depend on the mode
                 if cs[0] == 'mul':
                     if first:
-                        for s1, s2 in ((1, 1), (-1, 1), (1, -1), (-1, -1)):
+                        for s1, s2 in (((1, 1), (-1, 1), (1, -1), (-1, -1)) if c.tier != 'quick' else ((sx, sy), (-sx, sy))):
                             calls.append({'ev': 'wide', 't': 1, 'op': 'i256_div_mod_floor', 'a': jnum(s1 * cs[1]), 'b': jnum(s2 * cs[2]), 'k': 0, 'm': jnum(cs[3]), 'mode': mode})
                 else:
                     calls.append({'ev': 'wide', 't': 1, 'op': 'i128_shifted_div_rounded', 'a': jnum(sx * cs[1]), 'b': jnum(0), 'k': cs[2], 'm': jnum(sy * cs[3]), 'mode': mode})
